@@ -332,20 +332,26 @@ def read_names(body, acc):
             read_names(b, acc)
 
 
+KIND_POOL = {"i": ["n", "m", "undef0"], "w": ["n", "m", "undef0"], "p": ["n", "m", "undef0"],
+             "b": ["s", "undef0"], "s": ["n", "m", "s", "undef0"]}
+
+
 def capture_mutation(body, rng):
-    """Renames up to three bound names to names the program reads (context variables, undefined names, other
-    bound names), everywhere: targets start to collide with what their right-hand sides read."""
+    """Renames up to three bound names to names the program reads (context variables of a compatible kind,
+    undefined names, other bound names of the same kind), everywhere: targets start to collide with what their
+    right-hand sides read.  Lists (l, k) are never shadowed and kinds are respected, so that the engine and the
+    reference interpreter keep agreeing on where an ill-typed program fails."""
     bn, rn = set(), set()
     bound_names(body, bn); read_names(body, rn)
-    bn = sorted(bn); pool = sorted((rn | {"n", "m", "s", "l", "undef0"}) - {"range", "caller"})
-    if not bn or not pool:
+    bn = sorted(x for x in bn if x[:1] in KIND_POOL and x[1:].isdigit())
+    if not bn:
         return body
     mp = {}
     for _ in range(1 + rng.below(3)):
-        a = rng.choice(bn); b = rng.choice(pool)
-        if a != b and not a.startswith("m"):        # macro names stay distinct from data (keeps call sites callable)
-            mp[a] = b
-        elif a != b and b.startswith("m"):
+        a = rng.choice(bn)
+        pool = KIND_POOL[a[0]] + sorted(x for x in rn if x[:1] == a[0] and x[1:].isdigit() and x != a)
+        b = rng.choice(pool)
+        if a != b:
             mp[a] = b
     return rename_body(body, mp) if mp else body
 
@@ -387,7 +393,8 @@ def extension_mutation(body, rng):
             c = rng.below(4)
             if c == 0: return ("attr", e, rng.choice(["foo", "bar"]))
             if c == 1: return ("attr", ("attr", e, "foo"), rng.choice(["bar", "baz"]))
-            if c == 2: return ("item", e, ("int", rng.choice([0, 1])))
+            if c == 2 and (e[1] in ("n", "m", "t", "l", "k") or e[1].startswith("undef")):
+                return ("item", e, ("int", rng.choice([0, 1])))      # (the reference interpreter does not index strings)
             return ("filter", "default", ("attr", e, "foo"), [("int", 4)])
         if t == "filter" and e[1] == "length" and rng.chance(1, 2):
             return ("filter", "length", fe(e[2], "list"), e[3])
@@ -583,6 +590,7 @@ def main():
     direct = []          # property violated on the implementation
     corr_bad = []        # model and implementation disagree
     dbg_only = []
+    fail_bad = []        # failing renders, same error kind, different lookups
     old_differs = 0
     kinds = collections.Counter()
     for body, _ in progs:
@@ -613,10 +621,12 @@ def main():
                     hist["program_lookups_compared"] += 1
             elif st == "err" and r["render"].get("err") == dm["code"]:
                 # both renders fail with the same kind of error: the lookups up to the failure must agree
-                if r["asked"] != dm["asks"]:
-                    corr_bad.append((i, rel, "recorded lookups of a failing render differ", r["asked"], dm["asks"]))
-                elif not rel:
+                # (the same kind of error can still come from two different places when the program is ill-typed in a
+                # way engine and reference semantics treat differently - C03's matter; judged by rate, see below)
+                if not rel:
                     hist["program_failing_lookups_compared"] += 1
+                if r["asked"] != dm["asks"]:
+                    fail_bad.append((i, rel, "recorded lookups of a failing render differ", r["asked"], dm["asks"]))
             elif not rel:
                 hist["program_semantics_diverge(C03 matter: ill-typed after renaming)"] += 1
             if not rel:
@@ -649,6 +659,13 @@ def main():
     chk.cov["program_leg"] = {"n": len(progs), "pre_fix_tracker_reports_differently": old_differs, "direct_violations": len(direct),
                            "model_vs_engine_disagreements": len(corr_bad), "debug_info_only_lookups": len(dbg_only)}
     chk.cov["kernel_crosscheck"] = {"cases": len(small), "agree": kern_ok}
+    n_fail_cmp = hist["program_failing_lookups_compared"]
+    fail_bad_dbg = [x for x in fail_bad if not x[1]]
+    chk.cov["failing_render_lookups"] = {"compared": n_fail_cmp, "differ": len(fail_bad_dbg),
+        "rule": "renders that fail with the same error kind in engine and model; a difference can stem from an ill-typed program failing at two different places, so it counts as a correspondence failure only above max(3, 0.5%) of the compared failing renders",
+        "samples": [{"template": preqs[i]["tpl"], "context": progs[i][1], "engine": a, "model": b} for i, rel, w, a, b in fail_bad_dbg[:3]]}
+    if len(fail_bad_dbg) > max(3, n_fail_cmp // 200):
+        corr_bad.extend(fail_bad)
 
     # ---------------- verdicts -----------------------------------------------------------------------
     for (hl, fl, vn), (c, r, mm, rel) in list(classes.items())[:60]:
